@@ -824,6 +824,12 @@ def run_integral(ctx, drv, case):
         mv = bits_float(drv.ask(ana_line))
         scale = 1e-3 * max(abs(float(np.ravel(f.eval(list(a)))[0])), abs(float(np.ravel(f.eval(list(b)))[0]))) * \
             float(np.prod([abs(y - x) for x, y in zip(a, b)]))
+        if name == "GenzOszillatory":
+            # the closed form is a signed corner sum of terms of size 1/prod|c_i|: when it cancels (integral ~ 0) the
+            # comparison unit must be the size of the summands, not the (tiny) values of f at two corners
+            nz = [abs(float(c)) for c in params["c"] if float(c) != 0.0]
+            vol = float(np.prod([abs(y - x) for x, y in zip(a, b)]))
+            scale = max(scale, 1e-3 * max(vol, 1.0 / float(np.prod(nz)) if nz else vol))
         if mv is None or not rel_close(ana, mv, 1e-12, scale):
             ok = False
             ctx.corr_break("C12/anaT-" + name, case, {"impl": ana, "model_float": mv, "line": ana_line})
